@@ -138,3 +138,38 @@ Definition diag_eds (sn : eds_snapshot) (obs : eds_obs) : list N :=
   end.
 Definition diag (c : case) : list N :=
   match c with CErs sn obs => diag_ers sn obs | CEds sn obs => diag_eds sn obs end.
+
+(** ** Context for the property monitors: what the sync derives from its lists (none when the sync
+    returns early: no parent, parent not defaulted, gate closed, a list that cannot be built). *)
+Definition ers_ctx (sn : ers_snapshot) : option sync_ctx :=
+  if N.eqb (r_owner (sn_rs sn)) no_name then None else
+  match sn_eds sn with
+  | None => None
+  | Some e =>
+      if negb (is_defaulted e) then None else
+      match st_freq (e_strategy e) with
+      | None => None
+      | Some freq =>
+          match sync_gate sn freq with
+          | Some _ => None
+          | None => match build_ctx sn e freq with Ok cx => Some cx | _ => None end
+          end
+      end
+  end.
+
+(** The rolling plan of the active role, recomputed for the monitors. *)
+Definition ers_rolling (sn : ers_snapshot) (cx : sync_ctx) : option rolling_plan :=
+  match cx_role cx with
+  | RoleActive =>
+      match rolling_plan_of (sn_rs sn) (e_annots (cx_eds cx)) (st_rolling (e_strategy (cx_eds cx))) (sn_now sn)
+                            (planning_items cx) with
+      | Ok rp => Some rp
+      | _ => None
+      end
+  | _ => None
+  end.
+
+(** Nodes whose kept pod the implementation deleted, among the update candidates. *)
+Definition obs_update_nodes (cx : sync_ctx) (rp : rolling_plan) (obs : ers_obs) : list name :=
+  filter (fun nn => existsb (fun pn => memN pn (ob_pod_deletes obs)) (pod_of_node (cx_items cx) nn))
+         (rp_del_unavailable rp ++ rp_del_available rp).
